@@ -10,6 +10,7 @@ import SkgVerif.Gen.EstimatorsExec
 import SkgVerif.Gen.Tables
 import SkgVerif.Lemmas.CressieReal
 import SkgVerif.Gen.Source
+import SkgVerif.Props.Transcribed.C01
 /-!
 # C01 — experimental variogram = estimator over exactly the pairs of each lag class
 
